@@ -744,7 +744,12 @@ impl Model {
                     if o.srank != exp_rank {
                         f.push(Finding { sig: "sample_rank".into(), what: format!("{tag}: expected sample_rank {exp_rank} ({} samples of the instance follow in the collection)", exp_rank), fatal: false });
                     }
-                    if !inst.counts_unsure {
+                    // the generation ranks are judged only when the generation counts of all returned
+                    // samples of the instance agree with the model (a count mismatch has its own signature)
+                    let counts_agree = m.pairs.iter().all(|(mi, oi)| {
+                        obs[*oi].dgc == inst.samples[*mi].dgc && obs[*oi].nwgc == inst.samples[*mi].nwgc
+                    });
+                    if !inst.counts_unsure && counts_agree && !inst.partial_unreg {
                         let g = (s.dgc + s.nwgc) as i64;
                         let exp_g = mrsic.unwrap() - g;
                         if o.grank as i64 != exp_g {
